@@ -20,10 +20,12 @@ mod ops_cli;
 // (signature: fn(op: &str, args: &[String]) -> Option<String>; None = not mine)
 mod ops_anchors;
 mod ops_arena;
+mod ops_c06;
 
 pub const COMPONENTS: &[fn(&str, &[String]) -> Option<String>] = &[
     ops_anchors::dispatch,
     ops_arena::dispatch,
+    ops_c06::dispatch,
     ops_cli::dispatch,
 ];
 
